@@ -432,8 +432,10 @@ func driverMain(prop string) int {
 	fmt.Printf("nsim driver: property=%s tier=%s VERIF_SEED=%d procs=%d\n", prop, tier, base, nproc)
 
 	var chunks []chunk
+	var perScen [][]chunk
 	totalPlanned := 0
 	for _, sb := range def.Scens {
+		var chunks []chunk
 		n := sb.Quick
 		if tier == "thorough" {
 			n = sb.Thorough
@@ -456,6 +458,18 @@ func driverMain(prop string) int {
 				c = n - f
 			}
 			chunks = append(chunks, chunk{sb.Scen, f, c})
+		}
+		perScen = append(perScen, chunks)
+	}
+	// interleave the scenarios so that a wall-clock budget cuts all of them proportionally
+	for more := true; more; {
+		more = false
+		for si := range perScen {
+			if len(perScen[si]) > 0 {
+				chunks = append(chunks, perScen[si][0])
+				perScen[si] = perScen[si][1:]
+				more = true
+			}
 		}
 	}
 
